@@ -3,6 +3,7 @@ import CM.Ops.Recognize
 import CM.Ops.Check
 import CM.Ops.Walk
 import CM.Ops.Render
+import CM.Ops.Emph
 namespace CM.Ops
 
 def echoOp : Op
@@ -15,6 +16,6 @@ def treeOp : Op
     | none => bad
   | _ => bad
 
-def allOps : List (String × Op) := [("echo", echoOp), ("tree", treeOp)] ++ recognizeOps ++ checkOps ++ walkOps ++ renderOps
+def allOps : List (String × Op) := [("echo", echoOp), ("tree", treeOp)] ++ recognizeOps ++ checkOps ++ walkOps ++ renderOps ++ emphOps
 
 end CM.Ops
